@@ -28,6 +28,37 @@ def fixed_cases_for(tier, styles=(None, "jcl"), step=1):
         for rep in range(reps):
             lv = 1 + (i + rep) % 4
             out.append({"file": f, "level": lv, "lseed": common.stable_seed(f, lv, rep), "tabs": rep == 2, "style": (None, "jcl", "indent_only")[rep % 3], "conf": None})
+    out.extend(option_sweep_cases(tier))
+    return out
+
+
+def option_sweep_cases(tier, quick_step=8):
+    """every documented value of every rule option (tables/option_domains.json) on that rule's own fixtures; quick: every n-th"""
+    from harness.gen import configs
+
+    br = configs.by_rule()
+    out = []
+    n = 0
+    for rid in sorted(br):
+        name, ident = rid.rsplit("_", 1)
+        cand = [f for f in corpus.files() if ("/rule_%s_test_input" % ident) in f and f.endswith(".vhd") and ("/%s/" % name in f or "/%s_statement/" % name in f or "/%s_definition/" % name in f or "/%ss/" % name in f)]
+        cand = [f for f in cand if len(corpus.lines(f)) <= MAXLINES[tier]]
+        if not cand:
+            continue
+        for opt in sorted(br[rid]):
+            if opt == "regex":
+                continue
+            for v in br[rid][opt]["values"]:
+                ent = {opt: v, "disable": False}
+                if opt == "case" and v == "regex":
+                    if "regex" not in br[rid]:
+                        continue
+                    ent["regex"] = br[rid]["regex"]["values"][0]
+                n += 1
+                if tier == "quick" and n % quick_step:
+                    continue
+                f = cand[n % len(cand)]
+                out.append({"file": f, "level": 0, "lseed": 0, "style": None, "conf": {"rule": {rid: ent}}})
     return out
 
 
